@@ -91,12 +91,19 @@ def run(ctx):
     schemas.append(("goldmaster", "repo", [TLS / "goldmaster.tl", TLS / "goldmaster2.tl", TLS / "goldmaster3.tl"], True))
     schemas.append(("schema", "repo", [TLS / "schema.tl"], True))
     schemas.append(("cpp", "repo", [TLS / "cpp.tl"], False))
+    d = ctx.scratch / "edge_ns"
+    d.mkdir(exist_ok=True)
+    (d / "s.tl").write_text(tlo_lib.edge_ns_primitives_schema())
+    schemas.append(("edge_ns_primitives", "namespaced-primitive-names", [d / "s.tl"], True))
     import randschema
     n_rs, n_rt = (6, 14) if quick else (40, 120)
     for i in range(n_rs):
         d = ctx.scratch / f"rs{i}"
         d.mkdir(exist_ok=True)
-        (d / "s.tl").write_text(randschema.Gen(rng, ntypes=rng.choice([4, 6, 8, 12])).text())
+        txt = randschema.Gen(rng, ntypes=rng.choice([4, 6, 8, 12])).text()
+        if i % 2 == 0:   # namespaced constructors named like builtins, right after the header
+            txt = txt.replace(randschema.HEADER, randschema.HEADER + tlo_lib.NS_PRIMITIVE_LINES, 1)
+        (d / "s.tl").write_text(txt)
         schemas.append((f"rs{i}", "random-codec-schema", [d / "s.tl"], False))
     for i in range(n_rt):
         d = ctx.scratch / f"rt{i}"
@@ -223,7 +230,8 @@ def run(ctx):
                 # the property itself, model-free
                 for sig, what in tlo_lib.oracle_tlo(combs, g):
                     s = sig.split(":")[0]
-                    stable = f"{pid}:{s}" if s.startswith("builtin-") else f"{pid}:{sig}:{name}"
+                    # F26 sigs carry the builtin's full name and nothing run-specific; everything else is a fresh violation
+                    stable = f"{pid}:{sig}" if s == "F26" else f"{pid}:{sig}:{name}"
                     bad.append((stable, f"{op}: {what}", replay))
                 if len(samples) < 10:
                     samples.append({"schema": name, "kind": r["kind"], "ts": ts, "combinators": len(combs), "types": len(g["types"]),
